@@ -32,6 +32,7 @@ class C08(Prop):
             for i in range(20):
                 k += 1
                 p = payloads(k)[i]; marker = 'zq%d' % k
+                if rng.random() < 0.6: p = rng.choice(['Съешь ещё этих мягких ', 'ÀÉÎÕÜàéîõü', '一二文字', 'é', 'жпд ', '\U0001F600 ']) + p   # multi-byte text in front of the markup
                 for ch, t in channels(rng, p):
                     pre = rng.choice(['', '+--+\n|  |\n+--+\n', '.-.\n| |\n\'-\'\n', '--> '])
                     entry = rng.choice(['settings', 'compressed'])
